@@ -5,7 +5,7 @@ FULL = [f for f in S.ALL_FEATURES if f not in ("exact", "deadlock")]
 
 
 # exclusion predicates for open known findings (vf/findings.py); applied by construction and counted
-KNOWN_EXCLUSIONS = ("preempt_blocked", "preempt_renege", "sched_reroute_self", "jockey_capacity", "preempt_overtime")
+KNOWN_EXCLUSIONS = ("preempt_blocked", "preempt_renege", "sched_reroute_self", "jockey_capacity", "preempt_overtime", "ps_priorities")
 
 
 def full_profile(**kw):
